@@ -27,6 +27,7 @@ type AcctInfo struct {
 	Secret []byte
 	KName  string // canonical short name used in logs (k0, k1, ...)
 	Locked bool   // created with a passphrase the unlocker does not know
+	DupKey bool   // another account of the population holds the same key: addressing by key is ambiguous
 	idx    int
 }
 
@@ -72,6 +73,9 @@ type WalletSpec struct {
 	Kind        string // "nd" or "distributed"
 	Accounts    []string
 	LockedAccts map[string]bool
+	// SameKeyAs: account name -> path of an account created earlier whose key this account holds as well (a key
+	// imported a second time, under another name or into another wallet).
+	SameKeyAs map[string]string
 }
 
 // NewPopulation builds wallets and accounts in a fresh scratch store.
@@ -102,6 +106,11 @@ func newPopulationOn(t *testing.T, tag string, specs []WalletSpec, store e2wtype
 		}
 		for _, an := range spec.Accounts {
 			sec := secretFor(tag, n)
+			dup := false
+			if first, ok := spec.SameKeyAs[an]; ok && p.byPath[first] != nil {
+				sec, dup = p.byPath[first].Secret, true
+				p.byPath[first].DupKey = true
+			}
 			pass := []byte("pass")
 			locked := spec.LockedAccts[an]
 			if locked {
@@ -111,9 +120,11 @@ func newPopulationOn(t *testing.T, tag string, specs []WalletSpec, store e2wtype
 			if err != nil {
 				panic(err)
 			}
-			info := &AcctInfo{Wallet: spec.Name, Name: an, Path: spec.Name + "/" + an, PubKey: a.PublicKey().Marshal(), Secret: sec, KName: fmt.Sprintf("k%d", n), Locked: locked, idx: n}
+			info := &AcctInfo{Wallet: spec.Name, Name: an, Path: spec.Name + "/" + an, PubKey: a.PublicKey().Marshal(), Secret: sec, KName: fmt.Sprintf("k%d", n), Locked: locked, DupKey: dup, idx: n}
 			p.Accts = append(p.Accts, info)
-			p.byKey[string(info.PubKey)] = info
+			if !dup {
+				p.byKey[string(info.PubKey)] = info
+			}
 			p.byPath[info.Path] = info
 			n++
 		}
